@@ -6,6 +6,7 @@ From Coq Require Import String.
 From Coq Require Import List Bool Arith NArith ZArith.
 Import ListNotations.
 Require Import PyLib Str Rx TextModel G_fn_sir2 RefJun RefValue RefWord RefWordsLine.
+Require G_fn_sir4 RefWordInit.
 
 (* "Each occurrence is replaced by a pseudonym determined only by the salt and the matched text": the translated
    _get_or_generate_sensitive_word_replacement, started on ANY cache whose entries are pseudonyms of their keys (which it maintains itself, so:
@@ -41,6 +42,25 @@ Proof. exact gen_words_anonymize_refines. Qed.
 Theorem C10G_contract_is_met : forall (rx_of : pyval -> option re) (rh : pyval) (a : word_anonymizer), rx_of rh = Some (w_regex a) -> words_contract rh a (words_call rx_of).
 Proof. exact words_call_contract. Qed.
 
+(* SensitiveWordAnonymizer.__init__ translated from the source (with _generate_sensitive_word_regex and _generate_conflicting_reserved_word_list, unit
+   G_fn_sir4.v; a Python set is the duplicate-free list of its elements in insertion order, re.compile a call of the py_call parameter): whenever the
+   model's word_init builds an anonymizer from ASCII reserved words, the translated constructor builds the object the theorems above start from --
+   reserved words lower-cased, the pattern re.compile answered for "(" + "|".join(words lower-cased, longest first, code-point order among equal
+   lengths) + ")" with re.IGNORECASE (the model's sort_words: a function of the SET of words), an EMPTY replacement cache, and a conflicting-word
+   collection with exactly the model's members -- and nothing else. *)
+Theorem C10_generated_constructor_is_the_model :
+  forall (pc : pyval -> pyval -> PyLib.res) (cls : list Z) (fuel : nat) (words reserved : list str) (salt : str) (rxv : pyval) (a : word_anonymizer),
+  Forall ascii reserved ->
+  pc (VFun (of_string "re.compile")) (VTuple [VList [RefJun.vstr (RefWordInit.word_pattern_text (sort_words (map lower_str words))); VInt 2]; VDict []]) = Normal rxv ->
+  word_init words salt reserved = Done a ->
+  exists cl,
+    G_fn_sir4.gen_SensitiveWordAnonymizer____init__ pc fuel (VObj cls []) (VList (map RefJun.vstr words)) (RefJun.vstr salt) (VList (map RefJun.vstr reserved))
+    = Normal (VTuple [VNone; wobj cls (VList (map RefJun.vstr (dedup (map lower_str reserved)))) rxv (VList (map RefJun.vstr cl)) salt []]) /\
+    (forall x, In x cl <-> In x (w_conflicting a)) /\
+    w_regex a = Grp 1 (alt_of (map lit_icase_rx (sort_words (map lower_str words)))) /\ w_salt a = salt.
+Proof. exact RefWordInit.gen_word_init_is_the_model. Qed.
+
 Print Assumptions C10_generated_word_replacement_depends_on_salt_and_text_only.
 Print Assumptions C10_generated_words_stage_is_the_model.
 Print Assumptions C10G_contract_is_met.
+Print Assumptions C10_generated_constructor_is_the_model.
